@@ -44,6 +44,14 @@ B `alias-decorated-options` -- sentence 2 under *output options* (`output.revers
                         E1+...+En must expand exactly like the n one-element aliases zq1 -> E1 ... zqn -> En written side
                         by side with the same decoration.
 
+B `self-rooted-definitions` -- user snippets *named after the root element of their own definition* (`ul -> ul>li.item*2>a`, the usual
+                        way to give an element a default content; also reached through another alias `wrap -> ul`), with other
+                        aliases (built-in or user) below the root.  Two oracles: (1) "resolution ends, nesting no deeper than the
+                        number of snippets" leaves the self-reference a plain element, so the alias must expand like the same
+                        definition stored under a fresh name that occurs nowhere (root names that are not built-in names);
+                        (2) sentence 1 for the alias occurrence *inside* the definition: the table must behave like the table in
+                        which that occurrence is replaced by its own definition spelled out.
+
 Not checked, and why: the *position* of the alias's attributes among the definition's under `output.reverseAttributes` (the
 statement does not define it; which element gets which attributes IS checked, see alias-decorated-options); `$` numbering and
 implicit repeaters *inside* definitions (statement silent);
@@ -1049,6 +1057,116 @@ def gen_opt_cases(seed, quick):
                         yield 'html', name, t[name], deco, ctx, t, o
 
 
+# ------------------------------------------------------------------------------------------------ self-rooted definitions
+# A user snippet named after the root element of its own definition: N -> N[attrs]>body, where the body contains other aliases
+# (slots `@Y@`).  The root refers to the snippet being resolved and stays a plain element (the statement: resolution ends,
+# "nesting no deeper than the number of snippets" -- with N active, N cannot be resolved again); every other alias of the
+# definition is expanded as usual (sentence 1).  `@R@` in the other definitions / in the abbreviation is the root's name.
+NEUTRAL = 'zqm'                 # a name that occurs in no table, no definition, no abbreviation
+SR_ROOTS = ['ul', 'box', 'nav', 'k1', 'tbl', 'dl', 'x-list', 'select', 'form', 'label', 'a', 'btn']
+SR_ROOT_ATTRS = ['', '', '.c', '[name id]', '[action=u]', '#d[p]']
+SR_BODIES = ['@Y@', 'li>@Y@', 'li*2>@Y@', 'li.item*2>@Y@', 'e+@Y@', '@Y@+e', 'li>e+@Y@', 'li>(@Y@)+e', 'p>q>@Y@', 'e[r=1]>@Y@+f>@Y@',
+             '(li>@Y@)*2', 'li{t}+li>@Y@', '@Y@+@Y@']
+SR_SLOT_DECOS = [['', '', False, '', '']] * 4 + [['.s', '', False, '', ''], ['[p=q]', '', False, '', ''], ['', '{t}', False, '', ''],
+                                                  ['', '', False, '*2', ''], ['', '', False, '', '>b'], ['#j', '{t}', False, '*2', '']]
+SR_USER_SLOTS = [{'it': 'i.t'}, {'it': 'k2>a'}, {'it': 'jt.c', 'jt': 'img+k3'}, {'it': 'k2[u=1]+k3'}, {'it': 'inp', 'jt': 'k2'}]
+SR_ABBRS = ['@R@', '@R@', '@R@.k', '@R@[x=y]{T}', '@R@*2', '@R@>b', 'p>@R@+q', 'sec>@R@.menu>b', '(@R@)*2', '@R@/', 'p*2>@R@#i>b+i']
+SR_WRAPS = [['wrap', '@R@'], ['wrap', 'div>@R@'], ['wrap', '@R@.w+k3']]
+SR_WRAP_ABBRS = ['wrap', 'p>wrap.k', 'wrap*2>b']
+
+
+def sr_tables(syntax, root, root_attrs, body, slot, deco, others, abbr, oracle):
+    """[(table, abbreviation), (table, abbreviation)] that must expand alike, or None if the slot's definition has no textual
+    spelling.  oracle `rename`: the definition under the fresh name NEUTRAL; oracle `inline`: the slot replaced by its definition"""
+    slot_alias = alias_form(slot, *deco)
+    if deco[4]:
+        slot_alias = '(' + slot_alias + ')'
+    defn = root + root_attrs + '>' + body.replace('@Y@', slot_alias)
+    t1 = {k: v.replace('@R@', root) for k, v in others.items()}
+    t1[root] = defn
+    a1 = abbr.replace('@R@', root)
+    if oracle == 'rename':
+        t2 = {k: v.replace('@R@', NEUTRAL) for k, v in others.items()}
+        t2[NEUTRAL] = defn
+        return [t1, a1], [t2, abbr.replace('@R@', NEUTRAL)]
+    defs = others if slot in others else definitions(syntax)
+    sp = spell(defs[slot], *deco)
+    if sp is None:
+        return None
+    t2 = dict(t1)
+    t2[root] = root + root_attrs + '>' + body.replace('@Y@', '(' + sp + ')')
+    return [t1, a1], [t2, a1]
+
+
+@_reports_slow
+def check_self_rooted(syntax, root, root_attrs, body, slot, deco, others, abbr, oracle):
+    pair = sr_tables(syntax, root, root_attrs, body, slot, deco, others, abbr, oracle)
+    if pair is None:
+        return None
+    (t1, a1), (t2, a2) = pair
+    a = _expand(a1, syntax, {'snippets': t1})
+    b = _expand(a2, syntax, {'snippets': t2})
+    if a != b:
+        if oracle == 'rename':
+            why = 'the same definition stored under the fresh name %r (the root %r stays a plain element either way)' % (NEUTRAL, root)
+        else:
+            why = 'the alias %r inside the definition replaced by its own definition' % slot
+        return 'syntax %s: snippet %r is named after the root of its definition %r; with snippets %r expand(%r) = %r but with %s, snippets %r, expand(%r) = %r' % (
+            syntax, root, t1[root], t1, a1, a, why, t2, a2, b)
+    return None
+
+
+def sr_is_nontrivial(args):
+    return sr_tables(*args) is not None
+
+
+def gen_self_rooted_cases(seed, quick):
+    rnd = random.Random('c14-selfroot-%d' % seed)
+    # the README shapes of the class first (fixed), then seeded combinations
+    for root, ra, body, slot in (('ul', '', 'li.item*2>@Y@', 'a'), ('select', '[name id]', '@Y@', 'opt'), ('form', '[action]', '@Y@', 'btn:s'),
+                                 ('box', '', '@Y@', 'it')):
+        others = {'it': 'i.t'} if slot == 'it' else {}
+        for abbr in SR_ABBRS:
+            for oracle in ('rename', 'inline'):
+                if oracle == 'rename' and root in definitions('html'):
+                    continue
+                yield 'html', root, ra, body, slot, ['', '', False, '', ''], others, abbr, oracle
+    for _ in range(1500 if quick else 40000):
+        syntax = rnd.choice(['html'] * 4 + ['xsl', 'pug', 'jsx'])
+        defs = definitions(syntax)
+        root = rnd.choice(SR_ROOTS)
+        others = {}
+        if rnd.random() < 0.35:
+            others = dict(rnd.choice(SR_USER_SLOTS))
+            slot = 'it'
+        else:
+            slot = rnd.choice(['a', 'img', 'inp', 'opt', 'btn:s', 'link:css']) if rnd.random() < 0.4 else rnd.choice(sorted(defs))
+        if slot == root or root in table_refs(defs.get(slot, ''), defs) or any(root in table_refs(defs[k], defs) for k in chain_of(syntax, slot)):
+            continue
+        abbr = rnd.choice(SR_ABBRS)
+        if rnd.random() < 0.25:
+            w = rnd.choice(SR_WRAPS)
+            others[w[0]] = w[1]
+            abbr = rnd.choice(SR_WRAP_ABBRS)
+        deco = list(rnd.choice(SR_SLOT_DECOS))
+        body = rnd.choice(SR_BODIES)
+        ra = rnd.choice(SR_ROOT_ATTRS)
+        for oracle in ('rename', 'inline'):
+            if oracle == 'rename' and root in defs:
+                continue        # under the fresh name the root would be the built-in snippet of that name
+            yield syntax, root, ra, body, slot, deco, others, abbr, oracle
+
+
+_CHAINS = {}
+
+
+def chain_of(syntax, name):
+    key = syntax if syntax in ('xsl', 'pug') else 'html'
+    if key not in _CHAINS:
+        _CHAINS[key] = dict(chains(syntax))
+    return _CHAINS[key].get(name, [])
+
+
 # ------------------------------------------------------------------------------------------------ run
 def run(tier, seed):
     quick = tier == 'quick'
@@ -1128,6 +1246,18 @@ def run(tier, seed):
                'a case is one table + abbreviations: termination (5 s), no exception, nesting of resolve() <= snippets involved, alias == definition '
                '(plain and decorated) for names with no reachable cycle', exhaustive=False)
     run_parallel(c, 'bounded.c14', 'check_user_table', ucases, chunk=25)
+    out.append(c.done())
+    scases = list(gen_self_rooted_cases(seed, quick))
+    real = [a for a in scases if sr_is_nontrivial(a)]
+    c = Clause('self-rooted-definitions', 'B', 'user snippets named after the root element of their own definition, N -> N[attrs]>body with built-in '
+               'or user aliases in the body (%d root names, %d body shapes, %d slot decorations; slots: every built-in name of html / xsl / pug, '
+               'user aliases with 1..2 snippets), also reached through a second alias (wrap -> N, div>N, N.w+k3); expanded alone, decorated '
+               'and inside larger abbreviations; 4 fixed tables + %s seeded combinations' % (len(SR_ROOTS), len(SR_BODIES), len(SR_SLOT_DECOS), '1500' if quick else '40000'),
+               '%d (syntax, root, body, slot, decoration, other snippets, abbreviation, oracle) cases, %d skipped (slot definition has no textual '
+               'spelling), %d evaluated' % (len(scases), len(scases) - len(real), len(real)),
+               'oracle rename (root names that are not built-in names): same output as the definition stored under a fresh name; oracle inline: '
+               'same output as the table whose definition has the inner alias replaced by that alias\'s definition spelled out', exhaustive=False)
+    run_parallel(c, 'bounded.c14', 'check_self_rooted', real, chunk=150)
     out.append(c.done())
     return out
 
